@@ -167,6 +167,11 @@ class Apps(object):
             charset = 'utf-16'
         errors_ns = {'ForbiddenLatin1': ForbiddenLatin1, 'NotFoundUtf16': NotFoundUtf16}
         self.extra_classes = errors_ns
+        from clastic.middleware.form import PostDataMiddleware
+        from clastic import POST
+        # a form route behind the stock extraction middleware (asked with a body that ends before its Content-Length)
+        self.app['postdata'] = Application([POST('/form', lambda a: Response('a=%r' % (a,)))], middlewares=[PostDataMiddleware(['a'])])
+        self.app['postdata-debug'] = Application([POST('/form', lambda a: Response('a=%r' % (a,)))], middlewares=[PostDataMiddleware(['a'])], debug=True)
         nr = Application([('/ok', lambda: Response('ok'))])
         nr.add(Route('/err', raiser), rebind_render_error=False)
         self.app['norebind'] = nr
@@ -339,6 +344,9 @@ def run_case(acc, A, handler, kind, spec, accept, pkey, carrier, neutral_cache):
             return wsgi.call(app, '/boom', method, query=q, headers=h), {}
         if kind == 'notfound':
             return wsgi.call(app, '/nf/' + pl.replace('/', '|'), method, headers=hdrs), {}
+        if kind == 'shortform':
+            h = dict(hdrs, **{'Content-Type': 'application/x-www-form-urlencoded', 'Content-Length': '100'})
+            return wsgi.call(app, '/form', 'POST', headers=h, body=b'a=1'), {}
     res, kw = do(payload)
     acc.evaluated += 1
     acc.transitions += 1
@@ -370,12 +378,17 @@ def run_case(acc, A, handler, kind, spec, accept, pkey, carrier, neutral_cache):
             fields['message'] = None
         if 'detail' not in kw:
             fields['detail'] = None      # class default detail (MethodNotAllowed appends) - presence only
-    elif kind == 'boom':
+    elif kind in ('boom', 'shortform'):
         want = 500
         fields = {'code': 500, 'message': None, 'detail': None, 'error_type': None}
     else:
         want = 404
         fields = {'code': 404, 'message': None, 'detail': None, 'error_type': None}
+    if kind == 'shortform' and res.code in (400, 500):
+        # whether the unreadable body is the client's fault (400) or an uncaught error (500) is not C09's business;
+        # that the answer is an error in the negotiated format is
+        want = res.code
+        fields = dict(fields, code=want)
     if res.code != want:
         bad('status-%s' % res.code, 'status %s, expected %s' % (res.status, want))
         return
@@ -435,6 +448,8 @@ def items(tier):
                 for ct in ('application/json', 'text/html; charset=utf-8', 'application/xml; charset=utf-8', 'text/plain'):
                     for pkey in ('tag', 'quotes', 'plain'):
                         out.append(('default', 'class', (cname, 'ct:' + ct, how), pkey))
+    for handler in ('postdata', 'postdata-debug'):
+        out.append((handler, 'shortform', None, ('body', 'plain')))
     for handler in ('default#HEAD', 'debug#HEAD'):
         out.append((handler, 'boom', None, ('excmsg', 'plain')))
         out.append((handler, 'notfound', None, ('path', 'plain')))
